@@ -56,3 +56,72 @@ def api(cmd, data, tid=None, process=None, classes=(), subs=(), show_tid=False, 
     method = {'kevents': p.formatted_kevents, 'traces': p.formatted_traces, 'callstacks': p.formatted_callstacks,
               'logs': p.formatted_logs}[cmd]
     return list(method(io.BytesIO(data)))
+
+
+def run_process(cmd, data, extra=(), terminal_columns=None, timeout=120):
+    """The command line as a real process: `python -m pykdebugparser <cmd> <file> ...` with its standard output on a pipe
+    (terminal_columns None) or on a pseudo terminal of that many columns (stdin / stderr as well).  Returns (text with
+    \\r\\n -> \\n, exit status).  What is printed must not depend on what the output is connected to - only whether escape
+    sequences are emitted may (so callers compare with the sequences removed)."""
+    import subprocess
+    import sys
+    from vlib import core
+    fd, path = tempfile.mkstemp(prefix='verif-cli-', suffix='.bin')
+    env = dict(os.environ, PYTHONPATH=os.pathsep.join([core.REPO] + [p for p in os.environ.get('PYTHONPATH', '').split(os.pathsep) if p]),
+               TERM='xterm-256color')
+    env.pop('COLUMNS', None)
+    env.pop('LINES', None)
+    argv = [sys.executable, '-m', 'pykdebugparser', cmd, path] + list(extra)
+    try:
+        with os.fdopen(fd, 'wb') as f:
+            f.write(data)
+        if terminal_columns is None:
+            p = subprocess.run(argv, env=env, stdout=subprocess.PIPE, stderr=subprocess.PIPE, timeout=timeout)
+            return p.stdout.decode('utf-8', 'replace'), p.returncode
+        import fcntl
+        import pty
+        import struct
+        import termios
+        master, slave = pty.openpty()
+        fcntl.ioctl(slave, termios.TIOCSWINSZ, struct.pack('HHHH', 50, terminal_columns, 0, 0))
+        proc = subprocess.Popen(argv, env=env, stdin=slave, stdout=slave, stderr=slave, close_fds=True)
+        os.close(slave)
+        chunks = []
+        while True:
+            try:
+                b = os.read(master, 65536)
+            except OSError:          # EIO: the other side is closed
+                break
+            if not b:
+                break
+            chunks.append(b)
+        proc.wait(timeout=timeout)
+        os.close(master)
+        return b''.join(chunks).decode('utf-8', 'replace').replace('\r\n', '\n'), proc.returncode
+    finally:
+        os.unlink(path)
+
+
+def terminal_agrees(res, key_prefix, data, label, cmds=(('traces', ('--no-color',)), ('traces', ())), columns=(80, 200)):
+    """Monitor: the command line prints the same text (escape sequences removed) on a pipe and on pseudo terminals."""
+    import re
+    ansi = re.compile(r'\x1b\[[0-9;]*m')
+    for cmd, extra in cmds:
+        try:
+            piped, rc0 = run_process(cmd, data, extra)
+            outs = {cols: run_process(cmd, data, extra, terminal_columns=cols) for cols in columns}
+        except Exception as x:
+            res.inconclusive.append(f'{label}: command line on a pseudo terminal could not be run: {x!r}')
+            return False
+        res.count('cli_runs_on_a_terminal', len(columns))
+        for cols, (text, rc) in outs.items():
+            a, b = ansi.sub('', piped), ansi.sub('', text)
+            if rc != rc0 or a != b:
+                la, lb = a.split('\n'), b.split('\n')
+                k = next((i for i, (x, y) in enumerate(zip(la, lb)) if x != y), min(len(la), len(lb)))
+                res.violation(f'{key_prefix}-cli-text-depends-on-the-terminal', f'{label}: `{cmd} {" ".join(extra)}` on a '
+                              f'{cols}-column terminal prints {len(lb)} lines (exit {rc}), on a pipe {len(la)} (exit {rc0}); '
+                              f'line {k}: {lb[k] if k < len(lb) else None!r} vs {la[k] if k < len(la) else None!r}',
+                              {'file': data, 'cmd': cmd, 'args': list(extra), 'columns': cols})
+                return False
+    return True
